@@ -370,6 +370,83 @@ def batch_records(ad, eps, tier, seed):
     return recs
 
 
+def ppo_records(ad, fam, tier, seed):
+    """what StepwisePPO CONSUMES: the real StepwisePPO.shared_step (phase "train", a batch that only fills the buffer) drives the
+    real step-wise environment with a stub policy (uniformly random mask-admitted actions); the transitions it hands to its
+    replay buffer (state before the step, action, `reward` = env.get_reward(next_td, None) after the scaler) are re-assembled
+    into one trace record per batch row -- rows that finish early are the padding part -- and validated like all other rows"""
+    import torch.nn as nn
+    from rl4co.models.rl import StepwisePPO
+
+    class Pol(nn.Module):
+        def __init__(self, gen):
+            super().__init__()
+            self.p = nn.Parameter(torch.zeros(1))
+            self.gen = gen
+
+        def act(self, td, env, phase="train"):
+            m = td["action_mask"].float()
+            m = torch.where(m.sum(-1, keepdim=True) > 0, m, torch.ones_like(m))
+            td["action"] = torch.multinomial(m, 1, generator=self.gen).squeeze(-1)
+            td["logprobs"] = torch.zeros(td.batch_size[0])
+            return td
+
+    class Env:
+        """the real environment, observed: the state after the last step is needed to close the records"""
+        def __init__(self, env):
+            self.env, self.name, self.last = env, env.name, None
+
+        def reset(self, batch):
+            return self.env.reset(batch)
+
+        def step(self, td):
+            out = self.env.step(td)
+            self.last = out["next"]
+            return out
+
+        def get_reward(self, td, actions):
+            return self.env.get_reward(td, actions)
+
+    recs = []
+    groups = list(group_by(fam, ad.group_key).items())
+    rnd = random.Random(300 + seed)
+    rnd.shuffle(groups)
+    for key, group in groups[: (3 if tier == "quick" else 12)]:
+        insts = list(group)
+        rnd.shuffle(insts)
+        insts = insts[:24]
+        env = Env(ad._mk(insts[0]) if hasattr(ad, "_mk") else ad.make_env(insts[0]))
+        gen = torch.Generator().manual_seed(500 + seed)
+        mod = StepwisePPO(env, Pol(gen), update_timestep=2, buffer_size=100000, batch_size=len(insts), mini_batch_size=4,
+                          max_grad_norm=None, reward_scale=None)
+        mod.log_dict = lambda *a, **k: None
+        stored, orig = [], mod.rb.extend
+        mod.rb.extend = lambda td: (stored.append(td.clone()), orig(td))[1]
+        mod.shared_step(ad.to_td(insts), 1, "train")
+        rows = [_Row(i) for i in insts]
+        for t, td in enumerate(stored + [env.last]):
+            rew = None
+            if t > 0:       # the reward stored with the transition t-1, in the module's integer units
+                r = stored[t - 1]["reward"].reshape(len(insts), -1)[:, 0].tolist()
+                rew = [to_int(x * ad.scale(i) * ad.dunit(i)) for x, i in zip(r, insts)]
+                acts = stored[t - 1]["action"].tolist()
+            dn = done_of(td)
+            for k, row in enumerate(rows):
+                row.ctx = "ppo:%d/%d" % (k, len(rows))
+                if t > 0 and row.state == "live":
+                    row.a.append(int(acts[k])), row.rew.append(rew[k])
+                elif t > 0:
+                    row.pad["a"].append(int(acts[k])), row.pad["rew"].append(rew[k])
+                _observe(ad, td, k, row, pad=(t > 0 and row.state != "live"))
+            fresh = [k for k, row in enumerate(rows) if row.state == "live" and bool(dn[k])]
+            if fresh:
+                tr = ad.terminal(env, td[torch.tensor(fresh)].clone(), [rows[k].a for k in fresh], [rows[k].inst for k in fresh])
+                for k, v in zip(fresh, tr):
+                    rows[k].reward, rows[k].state = v, "pad"
+        recs += [row.record("done" if row.state == "pad" else "cap") for row in rows]
+    return recs
+
+
 def validate(ad, records, tag):
     """TLC trace validation, sharded over <= 4 single-worker JVMs -> fails [(rec, clause, step)], drifts, obs, states"""
     n = len(records)
@@ -518,6 +595,7 @@ def run_adapter(ad, tier, seed, solo_future, val_pool, fam, viols, cov):
         eps = bfs_dense(ad, fam, ad.pad_steps, seed)
         t_bfs = time.time() - t0
         recs = eps + batch_records(ad, eps, tier, seed)
+        recs += ppo_records(ad, fam, tier, seed)
     except Exception as e:      # noqa: BLE001
         where = crash_site(e)
         if where is None:
@@ -539,24 +617,27 @@ def judge(ad, fam, eps, recs, val_future, solo_future, seed, viols, cov, add, ou
     failed = {}
     for (k, mon, step) in fails:
         failed.setdefault(k, []).append((mon, step))
+    # what fails when the row runs truly alone (batch of one, no padding): key -> failing monitors (empty set = all pass)
     solo_fail = {}
-    for k, fl in failed.items():
-        if not recs[k]["ctx"].startswith("batch"):
-            solo_fail.setdefault((recs[k]["inst"]["id"], tuple(recs[k]["a"])), set()).update(m for m, _ in fl)
+    for k, e in enumerate(recs):
+        if e["ctx"].startswith("solo"):
+            solo_fail.setdefault((e["inst"]["id"], tuple(e["a"])), set()).update(m for m, _ in failed.get(k, []))
     for k, fl in sorted(failed.items()):
         e = recs[k]
+        key = (e["inst"]["id"], tuple(e["a"]))
         for mon, step in fl:
             if mon == "driver":
                 raise tlc.TLCError("driver produced a non mask-confined episode")
             detail = "step %d ctx=%s rew=%s pad.rew=%s terminal=%s end=%s ob=%s [units 1/%d]" % (
                 step, e["ctx"], e["rew"], e["pad"]["rew"], e["reward"], e["end"], [o.get("lbs", "") for o in e["ob"]][:6],
                 ad.scale(e["inst"]) * ad.dunit(e["inst"]))
+            pre = "ppo-" if e["ctx"].startswith("ppo") else ""
             if mon == "pad":
-                add("C04", "pad", e["inst"], e["a"] + e["pad"]["a"], detail)
-            elif e["ctx"].startswith("batch") and mon not in solo_fail.get((e["inst"]["id"], tuple(e["a"])), set()):
+                add("C04", pre + "pad", e["inst"], e["a"] + e["pad"]["a"], detail)
+            elif not e["ctx"].startswith("solo") and key in solo_fail and mon not in solo_fail[key]:
                 add("C04", "batch-" + mon, e["inst"], e["a"], detail)       # right alone, wrong next to batch-mates
-            elif not e["ctx"].startswith("batch"):
-                add(ad.prop, mon, e["inst"], e["a"], detail)
+            elif not e["ctx"].startswith("batch"):                          # (a batch row that also fails alone is reported once)
+                add(ad.prop, pre + mon, e["inst"], e["a"], detail)
     for (k, step) in drifts[:10]:
         drift.append({"kind": "trace", "inst": recs[k]["inst"]["id"], "actions": recs[k]["a"], "step": step, "ctx": recs[k]["ctx"]})
     if len(drifts) > 10:
@@ -606,7 +687,8 @@ def judge(ad, fam, eps, recs, val_future, solo_future, seed, viols, cov, add, ou
     cov["per_env"][env_name] = {
         "instances": len(fam), "model_states": r.distinct, "model_behaviours": len(behaviours), "model_depth": r.depth,
         "tlc_coverage": r.coverage(), "model_invariant_failures": other,
-        "real_episodes": len(eps), "real_pad_steps": sum(len(e["pad"]["a"]) for e in recs), "batch_rows": len(recs) - len(eps),
+        "real_episodes": len(eps), "real_pad_steps": sum(len(e["pad"]["a"]) for e in recs), "batch_rows": sum(1 for e in recs if e["ctx"].startswith(("solo", "batch"))),
+        "stepwise_ppo_rows": sum(1 for e in recs if e["ctx"].startswith("ppo")),
         "traces_validated": len(recs), "trace_states": tstates, "replayed_behaviours": nrep,
         "violation_counts": {"%s/%s" % k: v for k, v in counts.items()}, "drift": drift[:10],
         "wall_s": {"bfs": round(t_bfs, 1), "real": round(t_real, 1), "trace_tlc": round(t_val, 1), "solo_tlc": round(r.wall, 1),
@@ -615,14 +697,15 @@ def judge(ad, fam, eps, recs, val_future, solo_future, seed, viols, cov, add, ou
                                         "terminal": eps[0]["reward"], "pad_rew": eps[0]["pad"]["rew"]}}
 
 
-def violations(tier, seed):
-    """-> (violations, coverage)"""
+def violations(tier, seed, props=None):
+    """-> (violations, coverage).  props: restrict to the adapters deciding these properties, e.g. ("C03",) = dense TSP only,
+    ("C07",) = scheduling only; None or anything containing "C04" = all (every adapter can produce C04 verdicts)"""
     t0 = time.time()
     logging.disable(logging.WARNING)
     torch.set_num_threads(min(4, torch.get_num_threads()))
     viols = []
     cov = {"states": 0, "transitions": 0, "replayed": 0, "per_env": {}, "observations": [], "dense_tsp_quirks_assumed": DENSE_TSP_QUIRKS}
-    ads = [cls() for cls in ADAPTERS]
+    ads = [cls() for cls in ADAPTERS if props is None or "C04" in props or cls.prop in props]
     fams = []
     for ad in ads:
         fam = ad.family(tier, seed)
